@@ -131,7 +131,7 @@ def expected_matrix_and_names(spec):
 
 def rand_spec(rng, M, allow_multichar=True):
     r = rng.random()
-    if r < 0.5:
+    if r < 0.5 or len(M) < 2:        # a diagram needs at least one pair of generators
         return {"route": "matrix", "M": M, "style": rng.choice(["alpha", "alphanum"])}
     edges, names, order = diagram_for(rng, M, multichar=allow_multichar and rng.random() < 0.4)
     return {"route": "diagram", "M": M, "edges": edges, "names": names, "order": order}
@@ -189,7 +189,7 @@ def limited(seconds, fn):
 
 
 # ---- constructor variants for the generic defences (G2 input isolation, G4 dtypes) --------------------------------
-CTORS = ["buffer", "view", "fortran", "list", "tuple", "float", "int32", "fresh",
+CTORS = ["buffer", "view", "fortran", "list", "tuple", "float", "int32", "float32", "int8", "object", "listfloat", "fresh",
          "diagram_list", "diagram_tuple", "diagram_gen", "diagram_zip", "diagram_iter"]
 
 
@@ -225,6 +225,12 @@ def construct(mem, rank, work, keep):
         A = np.array(M, dtype=np.int32)
         keep.append(A)
         return coxeter.CoxeterGroup(matrix=A, generator_style=mem["style"]), mnames
+    if c in ("float32", "int8", "object"):
+        A = np.array(M, dtype={"float32": np.float32, "int8": np.int8, "object": object}[c])
+        keep.append(A)
+        return coxeter.CoxeterGroup(matrix=A, generator_style=mem["style"]), mnames
+    if c == "listfloat":
+        return coxeter.CoxeterGroup(matrix=[[float(x) for x in row] for row in M], generator_style=mem["style"]), mnames
     if c == "fresh":
         return coxeter.CoxeterGroup(matrix=np.array(M), generator_style=mem["style"]), mnames
     edges = [[nm[i], nm[j], M[i][j]] for i, j in pairs]
